@@ -356,8 +356,18 @@ def family_and_call(draw):
     return {'kind': 'call', 'family': family, 'call': call}
 
 
+def _biased():
+    # the >=2-simultaneous-matches families of C06, judged by the rules
+    from vf.props import c06
+    return c06.biased_family().map(lambda c: {
+        'kind': 'call', 'family': c['family'],
+        'call': dict(c['call'], via='text')})
+
+
 def _shard(run, n, shard):
     run.hyp('calls', family_and_call(), lambda c: check_call(run, c), n,
+            shard=shard)
+    run.hyp('biased', _biased(), lambda c: check_call(run, c), n // 4,
             shard=shard)
 
 
